@@ -6,13 +6,13 @@ use zipora::succinct::rank_select::multidim_simd::MultiDimRankSelect;
 use zipora::succinct::rank_select::*;
 use zipora::succinct::BitVector;
 
-pub struct Def { pub bits: Vec<bool>, pub pre: Vec<usize>, pub pos1: Vec<usize>, pub pos0: Vec<usize> }
+pub struct Def { pub bits: Vec<bool>, pub pre: Vec<usize>, pub pos1: Vec<usize>, pub pos0: Vec<usize>, pub light: bool }
 impl Def {
     pub fn new(bits: Vec<bool>) -> Def {
         let n = bits.len(); let mut pre = vec![0usize; n + 1];
         for i in 0..n { pre[i + 1] = pre[i] + bits[i] as usize; }
         let pos1 = (0..n).filter(|&i| bits[i]).collect(); let pos0 = (0..n).filter(|&i| !bits[i]).collect();
-        Def { bits, pre, pos1, pos0 }
+        Def { bits, pre, pos1, pos0, light: false }
     }
     pub fn bv(&self) -> BitVector { let mut bv = BitVector::new(); for &b in &self.bits { bv.push(b).unwrap(); } bv }
     pub fn words(&self) -> Vec<u64> { let mut w = vec![0u64; (self.bits.len() + 63) / 64]; for (i, &b) in self.bits.iter().enumerate() { if b { w[i / 64] |= 1u64 << (i % 64); } } w }
@@ -20,6 +20,12 @@ impl Def {
     pub fn probe_positions(&self, c: &mut Case) -> Vec<usize> {
         let n = self.bits.len();
         if n <= 4096 { return (0..=n).collect(); }
+        if self.light { // huge inputs: boundary positions around 2^16 / 2^20 / the end plus a small random sample
+            let mut ps: Vec<usize> = vec![0, 1, n - 1, n];
+            for b in [65535usize, 65536, 65537, 131072, 1 << 20, (1 << 20) + 1, 1 << 21, 1 << 22] { for d in [0usize, 1, 63, 64, 255, 256, 511, 512] { if b + d <= n { ps.push(b + d); } if b >= d && b - d <= n { ps.push(b - d); } } }
+            for _ in 0..200 { ps.push(c.rng.usize_below(n + 1)); }
+            ps.sort(); ps.dedup(); return ps;
+        }
         let mut ps: Vec<usize> = vec![0, n];
         for b in [64usize, 256, 512, 2048, 65536] { let mut k = 0; while k * b <= n { for d in [-1i64, 0, 1] { let p = (k * b) as i64 + d; if p >= 0 && p as usize <= n { ps.push(p as usize); } } k += if b <= 256 && n > 40000 { 1 + c.rng.usize_below(4) } else { 1 }; } }
         for _ in 0..2000 { ps.push(c.rng.usize_below(n + 1)); }
@@ -27,6 +33,7 @@ impl Def {
     }
     pub fn probe_ks(&self, c: &mut Case, total: usize) -> Vec<usize> {
         if total <= 4096 { return (0..total).collect(); }
+        if self.light { let mut ks: Vec<usize> = vec![0, total - 1, total / 2]; for b in [65535usize, 65536, 65537, 1 << 20] { if b < total { ks.push(b); } } for _ in 0..40 { ks.push(c.rng.usize_below(total)); } ks.sort(); ks.dedup(); return ks; }
         let mut ks: Vec<usize> = vec![0, total - 1];
         for _ in 0..2000 { ks.push(c.rng.usize_below(total)); }
         let mut k = 0; while k < total { ks.push(k); if k > 0 { ks.push(k - 1); } k += 511 + c.rng.usize_below(3); }
@@ -50,7 +57,7 @@ pub fn check_ops<R: RankSelectOps + ?Sized>(c: &mut Case, rs: &R, d: &Def, selec
         ensure!(v0 == p - d.pre[p], "rank0", "rank0({p})={v0} want {} (n={n})", p - d.pre[p]);
         c.ev(2);
     }
-    let gi: Vec<usize> = if n <= 4096 { (0..n).collect() } else { (0..1500).map(|_| c.rng.usize_below(n)).collect() };
+    let gi: Vec<usize> = if n <= 4096 { (0..n).collect() } else { (0..if d.light { 300 } else { 1500 }).map(|_| c.rng.usize_below(n)).collect() };
     for i in gi { let g = catch(|| rs.get(i)).map_err(|e| bad("get_panic", format!("get({i}): {}", e.loc)))?; ensure!(g == Some(d.bits[i]), "get", "get({i})={g:?} want {}", d.bits[i]); c.ev(1); }
     let g = catch(|| rs.get(n)).map_err(|e| bad("get_panic", format!("get(len): {}", e.loc)))?; ensure!(g.is_none(), "get_oob", "get(len={n}) = {g:?}");
     for k in d.probe_ks(c, ones) {
@@ -168,6 +175,26 @@ pub fn run(ctx: &mut Ctx) {
                 let inter = ctor!(m.intersect_dimensions(0, 1), "intersect"); ensure!(inter.len() == n, "multidim_intersect", "len"); for i in 0..n.min(5000) { ensure!(inter.get(i) == Some(d.bits[i] && d1.bits[i]), "multidim_intersect", "bit {i}"); }
                 let un = ctor!(m.union_dimensions(&[0, 2]), "union"); for i in 0..n.min(5000) { ensure!(un.get(i) == Some(d.bits[i] || d2.bits[i]), "multidim_union", "bit {i}"); }
                 Ok(()) });
+        }
+    }
+    // huge_ families: bit strings far beyond one superblock / 2^16 / 2^20 positions (sampled probes, O(n) oracle)
+    for kind in 0..gen::BIT_KINDS {
+        for idx in 0..ctx.n(1, 6) as u64 {
+            let g = format!("huge_{}", gen::bit_kind_name(kind));
+            let mk = |c: &mut Case| -> Def { let len = *c.rng.pick(&[65535usize, 65536, 65537, 262143, 262145, 1048575, 1048576, 1048577, 2097153, 4194305]) + c.rng.usize_below(2) * 64;
+                let bits = gen::bits_kind(&mut c.rng, kind, len); let mut d = Def::new(bits); d.light = true; c.input_str("kind", gen::bit_kind_name(kind)); c.input_str("len", &len.to_string());
+                let w = d.words(); let bytes: Vec<u8> = w.iter().take(4096).flat_map(|x| x.to_le_bytes()).collect(); c.input("first_words", &bytes); c.set_nontrivial(true); d };
+            ctx.case("il256", &g, idx, |c| { let d = mk(c); let rs = ctor!(RankSelectInterleaved256::new(d.bv()), "il256"); check_ops(c, &rs, &d, true)?; check_perf(c, &rs, &d) });
+            ctx.case("il256_opts", &g, idx, |c| { let d = mk(c); let rs = ctor!(RankSelectInterleaved256::with_options(d.bv(), false, 512), "il256_nocache"); check_ops(c, &rs, &d, true) });
+            ctx.case("se256", &g, idx, |c| { let d = mk(c); let (s0, s1) = (c.rng.bool(), c.rng.bool()); let rs = ctor!(RankSelectSE256::with_options(d.bv(), s0, s1), "se256"); check_ops(c, &rs, &d, true) });
+            ctx.case("se512", &g, idx, |c| { let d = mk(c); let (s0, s1) = (c.rng.bool(), c.rng.bool()); let rs = ctor!(RankSelectSE512::with_options(d.bv(), s0, s1), "se512"); check_ops(c, &rs, &d, true) });
+            ctx.case("simple", &g, idx, |c| { let d = mk(c); let rs = ctor!(RankSelectSimple::new(d.bv()), "simple"); check_ops(c, &rs, &d, true) });
+            ctx.case("adaptive", &g, idx, |c| { let d = mk(c); let rs = ctor!(AdaptiveRankSelect::new(d.bv()), "adaptive"); c.note(&format!("impl:{}", rs.implementation_name()), 1); check_ops(c, &rs, &d, true) });
+            ctx.case("fewone", &g, idx, |c| { let d = mk(c); if d.pos1.len() > 400_000 { return Ok(()); } let p: Vec<u32> = d.pos1.iter().map(|&x| x as u32).collect(); let rs = ctor!(RankSelectFewOne::new(p, d.bits.len()), "fewone"); check_ops(c, &rs, &d, true) });
+            ctx.case("fewzero", &g, idx, |c| { let d = mk(c); if d.pos0.len() > 400_000 { return Ok(()); } let p: Vec<u32> = d.pos0.iter().map(|&x| x as u32).collect(); let rs = ctor!(RankSelectFewZero::new(p, d.bits.len()), "fewzero"); check_ops(c, &rs, &d, true) });
+            ctx.case("bitvector", &g, idx, |c| { let d = mk(c); let bv = d.bv(); let n = d.bits.len(); ensure!(bv.count_ones() == d.pre[n], "count_ones", "count_ones {} want {}", bv.count_ones(), d.pre[n]);
+                let ps = d.probe_positions(c); for &p in &ps { ensure!(bv.rank1(p) == d.pre[p], "rank1", "BitVector::rank1({p})={} want {}", bv.rank1(p), d.pre[p]); c.ev(1); }
+                let bulk = bv.rank1_bulk_simd(&ps); for (i, &p) in ps.iter().enumerate() { ensure!(bulk[i] == d.pre[p], "rank1_bulk_simd", "rank1_bulk_simd[{p}]"); } Ok(()) });
         }
     }
     // trivial implementations + dual adaptive
